@@ -102,6 +102,12 @@ func detWorkload(t *sim.Tape) (ops []detOp, desc string) {
 			return dump.Err(err) + " " + buf.String()
 		}})
 	}
+	if af := gen.AliasFont(t); af != nil {
+		ops = append(ops, detOp{name: "type1.Read(font registered under two names)", run: func() string {
+			g, err := type1.Read(bytes.NewReader(af))
+			return dump.Err(err) + " " + dump.Font(g)
+		}})
+	}
 	odd := gen.GenCMapMisuse(t)
 	ops = append(ops, detOp{name: "ReadCMap(misused operators)", run: func() string {
 		d, err := postscript.ReadCMap(bytes.NewReader(odd))
